@@ -246,6 +246,23 @@ func init() {
 		"math.Copysign": func(fr *frame, a []value) value { return math.Copysign(a[0].(float64), a[1].(float64)) },
 
 		"encoding/binary.Write": extBinaryWrite,
+		"context.WithValue": func(fr *frame, a []value) value {
+			if a[0].(iface).t == nil {
+				panic(targetPanic{v: rtErr("cannot create context from nil parent")})
+			}
+			if a[1].(iface).t == nil {
+				panic(targetPanic{v: rtErr("nil key")})
+			}
+			v := value(structure{a[0], a[1], a[2]})
+			return iface{t: types.NewPointer(fr.i.namedType("context", "valueCtx")), v: &v}
+		},
+		"crypto/rand.Read": func(fr *frame, a []value) value {
+			b := a[0].([]value)
+			for k := range b {
+				b[k] = uint8(0x40 + k%64)
+			}
+			return tuple{len(b), iface{}}
+		},
 
 		// ---- sort ----
 		"sort.Slice":       extSortSlice,
